@@ -525,3 +525,103 @@ def md_plugins(rng, plugins=None):
     if rng.random() < 0.1:
         d = mutate_ws(rng, d)
     return d
+
+
+# ---------------------------------------------------------------------------------------------------------------
+# directives (mistune.directives): RST syntax `.. name:: title`, fenced syntax ```{name} title (markers "`~" or custom ":")
+
+DIR_NAMES = ["note", "note", "tip", "warning", "attention", "caution", "danger", "error", "hint", "important", "image", "image", "figure", "figure",
+             "toc", "toc", "include", "unknown", "Note", "code-block", "x_y", "a-b", "9"]
+DIR_TITLES = ["", "", "title", "A *b* title", "pic.png", "/u?a=b&c", "<javascript:alert(1)>", "a b.md", "x&amp;y", "`c`", "[t](/u)", "{x}", ":k: v", "é%20"]
+DIR_OPTIONS = [("class", ["x", "a b", "", "<q>"]), ("alt", ["text", "", "a \"b\""]), ("width", ["100", "50%", "1.5em", "x", "", ".5"]),
+               ("height", ["20", "2.", "px", "١٢"]), ("align", ["left", "center", "top", "LEFT", "nowhere", ""]),
+               ("target", ["/t", "http://e.com/a b", "javascript:x", "", "&amp;"]), ("figwidth", ["80%", ""]), ("figclass", ["c1 c2", ""]),
+               ("min-level", ["1", "2", "0", "x", "", "-1", "4", " 2 ", "1_0"]), ("max-level", ["3", "2", "1", "7", "y", ""]), ("collapse", ["", "yes"]),
+               ("encoding", ["utf-8", "nope"]), ("bogus", ["v", ":", "a:b"]), ("a-b_9", ["v"])]
+
+
+def _dir_option_lines(rng):
+    out = []
+    for _ in range(rng.choice([0, 0, 1, 1, 2, 3, 5])):
+        k, vs = rng.choice(DIR_OPTIONS)
+        sep = rng.choice([" ", " ", "", "  "])
+        line = ":" + k + ":" + sep + rng.choice(vs) + rng.choice(["", "", " "])
+        if rng.random() < 0.05:
+            line = rng.choice([":" + k, k + ": v", ": " + k + ": v", ":" + k + " : v", "::"])
+        out.append(line)
+        if rng.random() < 0.1:
+            out.append("")
+    return out
+
+
+def _dir_body_lines(rng, kind, depth):
+    r = rng.random()
+    if r < 0.2:
+        return []
+    if r < 0.45 and depth < 8:
+        pre = [rng.choice(WORDS)] if rng.random() < 0.4 else []
+        post = ["", rng.choice(WORDS)] if rng.random() < 0.3 else []
+        return pre + directive(rng, kind, depth + 1).rstrip("\n").split("\n") + post
+    if r < 0.55:
+        return rng.choice([["- a", "- b"], ["> q", "lazy"], ["[r]: /ref 'T'"], ["[r]: /ref", "", "[r]"], ["# h", "", "p"], ["para", "", "second", "", "- li"],
+                           ["```", "code", "```"], ["~~~{x}", "y", "~~~"], ["    indented"], ["| a | b |", "|---|---|", "| 1 | 2 |"], ["[^1]: note"], ["t", ": d"]])
+    return md_doc(rng, 3, 4).rstrip("\n").split("\n")
+
+
+def directive(rng, kind, depth=0):
+    """one directive in the syntax of `kind` ("rst" | "fenced" | "fenced-colon"); bodies nest further directives"""
+    name = rng.choice(DIR_NAMES)
+    title = rng.choice(DIR_TITLES)
+    opts = _dir_option_lines(rng)
+    body = _dir_body_lines(rng, kind, depth)
+    gap = rng.choice([[], [""], [""], ["", ""]])
+    if kind == "rst":
+        sp = rng.choice([1, 1, 1, 2, 3])
+        head = ".." + " " * sp + name + "::" + rng.choice([" ", " ", "", "  "]) + title
+        if rng.random() < 0.04:
+            head = rng.choice([".." + name + "::", ".. " + name + ":", ".. " + name + " ::" + title, " .. " + name + "::", ".. ::"])
+        base = 2 + sp
+        def ind(l, extra_ok=True):
+            if not l:
+                return "" if rng.random() < 0.8 else " " * base
+            k = base + (rng.choice([0, 0, 0, 0, 1, 3, 4]) if extra_ok else 0)
+            if rng.random() < 0.04:
+                k = max(0, base - rng.choice([1, 2]))
+            return " " * k + l
+        lines = [head] + [ind(l) for l in opts] + (gap if (opts or body) else []) + [ind(l, False) if depth or rng.random() < 0.9 else ind(l) for l in body]
+        return "\n".join(lines) + rng.choice(["\n", "\n", "", "\n\n"])
+    chars = ":" if kind == "fenced-colon" else "`~"
+    if rng.random() < 0.1:
+        chars = "`~:"
+    c = rng.choice(chars)
+    n = max(3, 3 + (8 - depth if depth or rng.random() < 0.3 else rng.choice([0, 0, 1, 2])) - 5) if rng.random() < 0.7 else rng.choice([3, 4, 5])
+    lead = rng.choice(["", "", "", "", " ", "   "])
+    head = lead + c * n + rng.choice(["", "", "", " "]) + "{" + name + "}" + rng.choice([" ", " ", "", "  "]) + title
+    if rng.random() < 0.04:
+        head = rng.choice([c * 2 + "{" + name + "}", c * n + "{" + name, c * n + "{}", c * n + " x {" + name + "}", c * n + name])
+    close = rng.choice([c * n, c * n, c * n, c * (n + 1), c * n + "  ", " " + c * n, None, c * max(1, n - 1), c * n + " x"])
+    lines = [head] + opts + (gap if rng.random() < 0.7 else []) + body + ([close] if close is not None else [])
+    return "\n".join(lines) + rng.choice(["\n", "\n", "", "\n\n"])
+
+
+def md_directives(rng, kind):
+    """one or two directives of the syntax, optionally between token-level lines, inside a container, or whitespace-mutated"""
+    pieces = []
+    for _ in range(rng.choice([1, 1, 1, 2])):
+        pieces.append(directive(rng, kind) if rng.random() < 0.85 else md_doc(rng, 2, 4))
+    d = ""
+    for p in pieces:
+        if d and not d.endswith("\n"):
+            d += "\n"
+        if d and rng.random() < 0.6:
+            d += "\n"
+        d += p
+    r = rng.random()
+    if r < 0.15:
+        pre = rng.choice(["> ", "- ", "  ", "1. ", ">", "para\n"])
+        cont = {"> ": "> ", "- ": "  ", "  ": "  ", "1. ": "   ", ">": ">", "para\n": ""}[pre]
+        ls = d.split("\n")
+        d = "\n".join((pre if i == 0 else (cont if l or rng.random() < 0.5 else "")) + l for i, l in enumerate(ls))
+    if rng.random() < 0.06:
+        d = mutate_ws(rng, d)
+    return d
